@@ -31,6 +31,7 @@ var (
 	flagTrace  = flag.Bool("trace", false, "keep human-readable trace")
 	flagTapes  = flag.Bool("tapes", false, "always include tapes in the result")
 	flagKnown  = flag.String("known", "", "known_findings.json")
+	flagIndex  = flag.Int("index", 0, "run index within the batch (enumeration)")
 )
 
 // ReplayFile is the on-disk replay format.
@@ -38,6 +39,7 @@ type ReplayFile struct {
 	Property   string   `json:"property"`
 	Seed       uint64   `json:"seed"`
 	Tier       string   `json:"tier"`
+	Index      int      `json:"run_index"`
 	GOMAXPROCS int      `json:"gomaxprocs"`
 	WTape      []uint32 `json:"workload_tape"`
 	STape      []uint32 `json:"schedule_tape"`
@@ -111,6 +113,7 @@ func TestSim(t *testing.T) {
 			os.Exit(2)
 		}
 		e.Seed, e.Tier = rf.Seed, rf.Tier
+		*flagIndex = rf.Index
 		e.W = simrt.ReplayTape(rf.WTape)
 		stape = simrt.ReplayTape(rf.STape)
 	} else {
